@@ -1313,16 +1313,50 @@ enum SessParser {
     Comment(harper_comments::CommentParser),
     Other(Box<dyn Parser>),
 }
+enum SessMasker {
+    Comment(masker::CommentMasker),
+    Ts(TreeSitterMasker),
+}
+impl SessMasker {
+    fn create_mask(&self, chars: &[char]) -> Mask {
+        match self {
+            SessMasker::Comment(m) => m.create_mask(chars),
+            SessMasker::Ts(m) => m.create_mask(chars),
+        }
+    }
+    fn create_ident_dict(&self, chars: &[char]) -> Option<harper_core::MutableDictionary> {
+        match self {
+            SessMasker::Comment(m) => m.create_ident_dict(chars),
+            SessMasker::Ts(m) => m.create_ident_dict(chars),
+        }
+    }
+}
 struct Session {
     fe: String,
     parser: SessParser,
-    masker: Option<Box<dyn Masker>>,
-    history: Vec<String>,
+    masker: Option<SessMasker>,
+    /// (source, mode) of the steps so far; the mode is the ORDER of the calls on the instance (see `observe`)
+    history: Vec<(String, u8)>,
 }
-fn new_masker(fe: &str) -> Option<Box<dyn Masker>> {
+fn new_masker(fe: &str) -> Option<SessMasker> {
     let id = fe.strip_prefix("c:").unwrap_or(fe);
     let lang = ts_language(id)?;
-    Some(if id == "html" { Box::new(TreeSitterMasker::new(lang, cond_text)) } else { Box::new(masker::CommentMasker::new(lang, cond_comment)) })
+    Some(if id == "html" { SessMasker::Ts(TreeSitterMasker::new(lang, cond_text)) } else { SessMasker::Comment(masker::CommentMasker::new(lang, cond_comment)) })
+}
+fn idents_line(d: Result<Option<harper_core::MutableDictionary>, String>) -> String {
+    match d {
+        Ok(Some(d)) => {
+            use harper_core::Dictionary;
+            // the word map is keyed case-insensitively and filled from a HashSet: which of `Qzxvb` / `qzxvb`
+            // survives depends on the hash seed, so compare lower-cased
+            let mut w: Vec<String> = d.words_iter().map(|w| w.iter().collect::<String>().to_lowercase()).collect();
+            w.sort();
+            w.dedup();
+            w.join(" ")
+        }
+        Ok(None) => "-".into(),
+        Err(_) => "P".into(),
+    }
 }
 impl Session {
     fn new(fe: &str, dict: &Arc<FstDictionary>) -> Session {
@@ -1332,25 +1366,27 @@ impl Session {
         };
         Session { fe: fe.to_string(), parser, masker: new_masker(fe), history: vec![] }
     }
-    /// (tokens, mask, identifier dictionary) of this instance for `text`, canonicalised
-    fn observe(&self, text: &str) -> (String, String, String) {
+    /// (tokens, mask, identifier dictionaries) of this instance for `text`, canonicalised.  `mode` is the order of the
+    /// calls on the instance — each result is a function of `text` alone, so a fresh instance run in the same mode is
+    /// the reference whatever the order:
+    ///   0  create_ident_dict(text), parse(text), create_mask(text)       (what harper-ls does for one document)
+    ///   1  parse(text), create_mask(text), THEN create_ident_dict(text)   (the identifier pass of THIS text is the last thing
+    ///      the instance saw when the NEXT text is parsed — seed c04-5: dict(A) then parse(B != A))
+    ///   2  parse(text), create_mask(text) only
+    fn observe(&self, text: &str, mode: u8) -> (String, String, String) {
         let chars: Vec<char> = text.chars().collect();
-        let idents = match &self.parser {
-            SessParser::Comment(p) => match guarded(|| p.create_ident_dict(&chars)) {
-                Ok(Some(d)) => {
-                    use harper_core::Dictionary;
-                    // the word map is keyed case-insensitively and filled from a HashSet: which of `Qzxvb` / `qzxvb`
-                    // survives depends on the hash seed, so compare lower-cased
-                    let mut w: Vec<String> = d.words_iter().map(|w| w.iter().collect::<String>().to_lowercase()).collect();
-                    w.sort();
-                    w.dedup();
-                    w.join(" ")
-                }
-                Ok(None) => "-".into(),
-                Err(_) => "P".into(),
-            },
-            SessParser::Other(_) => "-".into(),
+        let idents_of = |s: &Session| -> String {
+            let a = match &s.parser {
+                SessParser::Comment(p) => idents_line(guarded(|| p.create_ident_dict(&chars))),
+                SessParser::Other(_) => "-".into(),
+            };
+            let b = match &s.masker {
+                Some(m) => idents_line(guarded(|| m.create_ident_dict(&chars))),
+                None => "-".into(),
+            };
+            format!("{a} / {b}")
         };
+        let mut idents = if mode == 0 { idents_of(self) } else { "not asked".to_string() };
         let toks = match guarded(|| match &self.parser {
             SessParser::Comment(p) => p.parse(&chars),
             SessParser::Other(p) => p.parse(&chars),
@@ -1365,6 +1401,9 @@ impl Session {
             },
             None => "-".into(),
         };
+        if mode == 1 {
+            idents = idents_of(self);
+        }
         (toks, mask, idents)
     }
 }
@@ -1376,11 +1415,11 @@ fn word_list(line: &str, text: &str) -> Vec<(usize, String)> {
 }
 /// run `versions` in order through ONE new session; the first version whose observation differs from a fresh
 /// instance's is returned with a description
-fn reuse_first_difference(fe: &str, versions: &[String], dict: &Arc<FstDictionary>) -> Option<(usize, String)> {
+fn reuse_first_difference(fe: &str, versions: &[(String, u8)], dict: &Arc<FstDictionary>) -> Option<(usize, String)> {
     let sess = Session::new(fe, dict);
-    for (i, v) in versions.iter().enumerate() {
-        let got = sess.observe(v);
-        let want = Session::new(fe, dict).observe(v);
+    for (i, (v, mode)) in versions.iter().enumerate() {
+        let got = sess.observe(v, *mode);
+        let want = Session::new(fe, dict).observe(v, *mode);
         if got != want {
             let what = if got.0 != want.0 {
                 let (g, w) = (word_list(&got.0, v), word_list(&want.0, v));
@@ -1399,16 +1438,23 @@ fn reuse_first_difference(fe: &str, versions: &[String], dict: &Arc<FstDictionar
 }
 /// one step of a long-lived session inside the run; on a difference the history is minimised to the shortest
 /// suffix that reproduces it on a new instance (so that the replay input is self-contained)
-fn session_step(rep: &mut Report, sess: &mut Session, text: &str, dict: &Arc<FstDictionary>) {
+fn session_step(rep: &mut Report, sess: &mut Session, text: &str, mode: u8, dict: &Arc<FstDictionary>) {
     rep.eval();
-    let got = sess.observe(text);
-    let want = Session::new(&sess.fe, dict).observe(text);
+    let got = sess.observe(text, mode);
+    let want = Session::new(&sess.fe, dict).observe(text, mode);
     rep.monitor("reuse_steps_checked", 1);
-    let multibyte_prefix = sess.history.last().map(|p| p.chars().zip(text.chars()).take_while(|(a, b)| a == b).any(|(a, _)| a.len_utf8() > 1)).unwrap_or(false);
+    rep.count(&format!("reuse_mode:{}", ["dict_parse_mask", "parse_mask_dict", "parse_mask"][mode.min(2) as usize]));
+    if let Some((prev, pm)) = sess.history.last() {
+        if *pm != 2 && prev != text && mode != 0 {
+            // the instance's last identifier pass saw ANOTHER text than the one it parses now
+            rep.monitor("reuse_parse_after_ident_dict_of_other_text", 1);
+        }
+    }
+    let multibyte_prefix = sess.history.last().map(|(p, _)| p.chars().zip(text.chars()).take_while(|(a, b)| a == b).any(|(a, _)| a.len_utf8() > 1)).unwrap_or(false);
     rep.count(&format!("reuse:{}", if sess.history.is_empty() { "first_use" } else if multibyte_prefix { "shares_multibyte_prefix_with_previous" } else { "other" }));
     if got != want {
-        let mut all: Vec<String> = sess.history.clone();
-        all.push(text.to_string());
+        let mut all: Vec<(String, u8)> = sess.history.clone();
+        all.push((text.to_string(), mode));
         let mut versions = all.clone();
         for k in 2..=all.len() {
             let cand = all[all.len() - k..].to_vec();
@@ -1418,14 +1464,14 @@ fn session_step(rep: &mut Report, sess: &mut Session, text: &str, dict: &Arc<Fst
             }
         }
         let what = reuse_first_difference(&sess.fe, &versions, dict).map(|(i, w)| format!("version {} of {}: {w}", i + 1, versions.len())).unwrap_or_else(|| "difference only with the full session history".into());
-        fail_limited(rep, &format!("stateful_instance:{}", sess.fe), format!("{}: an instance that was used for earlier sources returns something else than a fresh instance for the same source — {what}", sess.fe), json!({"kind":"reuse","fe":sess.fe,"versions":versions}));
+        fail_limited(rep, &format!("stateful_instance:{}", sess.fe), format!("{}: an instance that was used for earlier sources returns something else than a fresh instance for the same source — {what}", sess.fe), json!({"kind":"reuse","fe":sess.fe,"versions":versions.iter().map(|v| v.0.clone()).collect::<Vec<_>>(),"modes":versions.iter().map(|v| v.1).collect::<Vec<_>>()}));
         // start over with a clean instance: one stale state must not cascade through the rest of the run
         *sess = Session::new(&sess.fe, dict);
     }
     if multibyte_prefix {
         rep.nontrivial(&("reuse", &sess.fe, text));
     }
-    sess.history.push(text.to_string());
+    sess.history.push((text.to_string(), mode));
     if sess.history.len() > 6 {
         sess.history.remove(0);
     }
@@ -1514,10 +1560,16 @@ fn edit_chain(fe: &str, r: &mut Rng) -> Vec<String> {
     out
 }
 
-fn corr_reuse(rep: &mut Report, fe: &str, versions: &[String], dict: &Arc<FstDictionary>) {
+/// `modes`: the call order of every step (see Session::observe); when absent the steps cycle through the three orders,
+/// so that every chain has a parse(B) right after create_ident_dict(A)
+fn corr_reuse(rep: &mut Report, fe: &str, versions: &[String], modes: Option<&[u8]>, dict: &Arc<FstDictionary>) {
     let mut sess = Session::new(fe, dict);
-    for v in versions {
-        session_step(rep, &mut sess, v, dict);
+    for (i, v) in versions.iter().enumerate() {
+        let mode = match modes {
+            Some(m) => m.get(i).copied().unwrap_or(0).min(2),
+            None => [0u8, 1, 2, 1][i % 4],
+        };
+        session_step(rep, &mut sess, v, mode, dict);
     }
 }
 
@@ -1770,7 +1822,12 @@ pub fn replay_input(rep: &mut Report, v: &Value, dict: &Arc<FstDictionary>) {
         "misc" => corr_misc(rep, &text),
         "reuse" => {
             let versions: Vec<String> = v["versions"].as_array().map(|a| a.iter().map(|x| x.as_str().unwrap_or("").to_string()).collect()).unwrap_or_default();
-            corr_reuse(rep, v["fe"].as_str().unwrap_or("c:rust"), &versions, dict);
+            // replays written before the call orders existed have no "modes": every step in order 0, as they were found
+            let modes: Vec<u8> = match v["modes"].as_array() {
+                Some(a) => a.iter().map(|x| x.as_u64().unwrap_or(0) as u8).collect(),
+                None => vec![0; versions.len()],
+            };
+            corr_reuse(rep, v["fe"].as_str().unwrap_or("c:rust"), &versions, Some(&modes), dict);
         }
         "doc" => {
             let fe = v["fe"].as_str().unwrap_or("plain").to_string();
@@ -1971,7 +2028,7 @@ pub fn run(a: &Args, corpus: &[Value]) {
         for i in 0..per_fe {
             let b = build_file(fe, &mut r);
             if i % 4 == 0 {
-                session_step(&mut rep, &mut sess, &b.text, &dict);
+                session_step(&mut rep, &mut sess, &b.text, [1u8, 1, 0, 2][(i / 4) % 4], &dict);
             }
             oracle(&mut rep, &b, &dict);
             let id = fe.strip_prefix("c:").unwrap_or(fe).to_string();
@@ -1989,7 +2046,7 @@ pub fn run(a: &Args, corpus: &[Value]) {
     for fe in fes.iter().filter(|f| f.as_str() != "plain") {
         for _ in 0..a.scale(40, 600) {
             let chain = edit_chain(fe, &mut rr);
-            corr_reuse(&mut rep, fe, &chain, &dict);
+            corr_reuse(&mut rep, fe, &chain, None, &dict);
         }
     }
     // malformed stream through the maskers (no oracle: correspondence + monitors only)
